@@ -5,10 +5,12 @@
 -/
 import D2V.Drv.Common
 import D2V.Model.SemProj
+import D2V.Model.SemSpec
 open Lean D2V.Drv
 
 namespace D2V.SemIO
 open D2V.Sem
+open D2V.SemSpec (DNode DEdge Dump Viol)
 
 def decodeName (j : Json) : Except String Sem.Name := do
   pure { s := ← getStr j "s", q := ← getBool j "q", pos := ← getNat j "p" }
@@ -50,42 +52,6 @@ def decodeProg (j : Json) : Except String (List Decl) := do
 
 /-! ### the dump of the real graph -/
 
-structure DNode where
-  id : String
-  abs : String
-  parent : Int
-  children : List Nat
-  cmap : List (String × Nat)
-  label : String
-  shape : String
-  style : List (String × String)
-  pos : Int
-  nrefs : Nat
-  sameGraph : Bool
-  special : Bool
-deriving Repr, Inhabited
-
-structure DEdge where
-  src : Nat
-  dst : Nat
-  sa : Bool
-  da : Bool
-  index : Nat
-  label : String
-  style : List (String × String)
-  pos : Int
-  abs : String
-deriving Repr, Inhabited
-
-structure Dump where
-  name : String
-  kind : String
-  nodes : Array DNode
-  objects : List Nat
-  edges : List DEdge
-  boards : List Dump
-deriving Repr, Inhabited
-
 def decodeStyle (j : Json) : Except String (List (String × String)) := do
   (← getArr j "style").toList.mapM fun kv => match kv with
     | .arr #[.str k, .str v] => pure (k, v)
@@ -126,7 +92,7 @@ def decodeObs (o : Json) : Except String Obs :=
       pure (.errors cls (← getStr o "msg"))
     | _ => do pure (.graph (← decodeDump (← getObj o "g")))
 
-def absOf (d : Dump) (i : Nat) : String := match d.nodes[i]? with | some n => n.abs | none => s!"?{i}"
+open D2V.SemSpec (absOf)
 
 /-- the canonical view of a dump (same shape as `Sem.canonOf`) -/
 def canonOfDump (d : Dump) : Canon :=
